@@ -42,6 +42,14 @@ def run(replay=None):
             raise common.MachineryError('wallet setup failed: %s' % t['setup_error'])
         for e in t['events']:
             ck.case((tuple(t['kind']), e['op'], min(len(e['fresh']['utxos']), 4), e['fresh']['balance'] == 0))
+        for k, e in enumerate(t['events']):
+            if 'scan_truth' in e:
+                ck.case((tuple(t['kind']), 'scan', e['fresh']['balance'] == e['scan_truth'], e['scan_truth'] == 0))
+                if e['fresh']['balance'] != e['scan_truth']:
+                    # what scan() must discover is not part of the statement of C08: observation, no alarm
+                    ck.beyond('Wallet.scan() does not find everything paid to addresses within the gap limit',
+                              '%s wallet seed=%d, event %d: balance %d, chain says %d | %s' % (t['kind'], t['seed'], k + 1, e['fresh']['balance'],
+                                                                                            e['scan_truth'], ' ; '.join(x[:60] for x in t['desc'][:k + 1])[-700:]))
         for d in t['desc']:
             if d.startswith('DRIVER/LIBRARY EXCEPTION'):
                 ck.violation(None, 'clause call-raised; %s wallet seed=%d: %s | history: %s' % (t['kind'], t['seed'], d[:400], ' ; '.join(x[:70] for x in t['desc'][:-1])[:900]), case)
